@@ -37,6 +37,8 @@ class C02(PropBase):
     def gen(self, seed, tier):
         rng = core.rng_for(seed, "gen")
         cfg = gen.Cfg.for_tier(tier, int64=True, str_keys_only=True)
+        if tier == "thorough":
+            cfg.size_max = 300  # one agree step converts its value about a dozen times (three entry points, both directions, references)
         sw = hist.swarm(rng, FAULTS)
         world, view = gen.gen_world(rng, cfg)
         lk = view.lookup()
